@@ -512,15 +512,29 @@ b = KIND(capacity=cap, default_alignment=1, grow_step=gs)
 live = []
 pos = 0
 tofree = []
-for s, e in chunks:
-    if s > pos:
-        o = b.allocate(s - pos, align=False); assert o == pos, (o, pos); live.append((pos, s - pos))
-    o = b.allocate(e - s, align=False); assert o == s, (o, s); tofree.append((s, e - s))
-    pos = e
-if cap > pos:
-    o = b.allocate(cap - pos, align=False); assert o == pos; live.append((pos, cap - pos))
-for o, n in tofree:
-    b.free(o, n)
+if CASE.get("split_frees") and cap > 0:
+    # another legal history to the same pre-state: ONE region covering the buffer, released piece by piece (M11-C04:
+    # state that counts requests instead of bytes).  The property is checked along the way: each release frees
+    # exactly its bytes.
+    o = b.allocate(cap, align=False); assert o == 0, o
+    freed = 0
+    for s, e in chunks:
+        if s > pos: live.append((pos, s - pos))
+        b.free(s, e - s); freed += e - s
+        if b.get_free() != freed:
+            print("VIOLATED: after releasing", [(x, y) for x, y in chunks if y <= e], "out of one region covering the buffer the free total is", b.get_free(), "not", freed, "| case", CASE); sys.exit(1)
+        pos = e
+    if cap > pos: live.append((pos, cap - pos))
+else:
+    for s, e in chunks:
+        if s > pos:
+            o = b.allocate(s - pos, align=False); assert o == pos, (o, pos); live.append((pos, s - pos))
+        o = b.allocate(e - s, align=False); assert o == s, (o, s); tofree.append((s, e - s))
+        pos = e
+    if cap > pos:
+        o = b.allocate(cap - pos, align=False); assert o == pos; live.append((pos, cap - pos))
+    for o, n in tofree:
+        b.free(o, n)
 b.default_alignment = a
 got = [(c.start, c.end) for c in b.chunks]
 want = [(s, e) for s, e in chunks]
@@ -682,7 +696,7 @@ def main(pid):
             case = normalise_case(hname, cfg, cex)
             sig = signature(hname, cex, case)
             desc = f"{res['name']}: {cex['obligation']} with {json.dumps(case)}"
-            rep.candidate(sig, desc, REPLAY_TEMPLATE.format(case=repr(case)))
+            rep.candidate(sig, desc, REPLAY_TEMPLATE.format(case=repr(case)), history_text=REPLAY_TEMPLATE.format(case=repr(dict(case, split_frees=True))))
     if not ok:
         rep.harness_error("lemma L1 (x & -2^k rewriting) not unsat")
     # the rank harness must reach its end in at least one configuration (vacuity guard for the group)
